@@ -227,8 +227,14 @@ def verify_one(task):
     res["failed"] = [{"property": p["property"], "description": p.get("description", ""), "status": p["status"],
                       "trace": p.get("trace")} for p in failed]
     res["sample_props"] = [p["property"] + ": " + p.get("description", "")[:100] for p in real[:3]]
+    libfail = [p for p in failed if re.match(r"^(feraiseexcept|fesetround|fegetround|feclearexcept)\.", p["property"])]
     if bad_msgs:
         res.update(status="infra", detail="cbmc warnings: " + " | ".join(bad_msgs)[:1500])
+    elif libfail:
+        # an assertion inside CBMC's own C-library model (the floating-point environment stubs reached from its concrete fma): says nothing
+        # about the function under proof; this attempt decides nothing
+        res.update(status="undecided", detail="assertion of CBMC's library model failed (%s): this attempt cannot decide" % libfail[0]["property"])
+        res["failed"] = []
     elif (not canary or canary[0]["status"] == "SUCCESS") and failed and all(p["status"] == "FAILURE" for p in failed):
         # the end of the harness is unreachable because an obligation before it fails on every path (assert(false) in the source)
         res.update(status="failed", detail="; ".join(p["property"] for p in failed[:5]))
